@@ -114,7 +114,7 @@ func init() {
 						}
 					}
 					// the chained models: ToXYZ, adaptation, FromXYZ as Flocq expressions, then table[quant9]
-					if c.runner != nil && (pi%23 == 0 || c.thorough && pi%5 == 0) {
+					if c.runner != nil && (pi%23 == 0 && !c.thorough || c.thorough && pi%29 == 0) {
 						to, from := probeSpace(src)
 						_, fromD := probeSpace(dst)
 						_ = from
